@@ -616,3 +616,38 @@ theorem getLineByOffset_nonpos (w : Nat → Nat) (str : Bytes) (off : Int) (h : 
   simp only [getLineByOffset, key]
 
 end Gojq.Cli
+
+namespace Gojq.Cli
+open Gojq
+
+/-- on a text made of complete runes, the conversion of `yamlParseError.Error` maps the character
+    index `i` to the byte offset of the `i`-th rune (the text's length when there are fewer) -/
+theorem charToByte_flatten (cs : List Bytes) (h : ∀ c, c ∈ cs → RuneChunk c) : ∀ (fuel i pos : Nat),
+    cs.flatten.length ≤ fuel → charToByte fuel cs.flatten i pos = pos + (cs.take i).flatten.length := by
+  induction cs with
+  | nil => intro fuel i pos _; cases fuel <;> simp [charToByte]
+  | cons c t ih =>
+    intro fuel i pos hf
+    have hc := h c (by simp)
+    have hcl := hc.length_pos
+    simp only [List.flatten_cons, List.length_append] at hf
+    obtain ⟨b0, r, hcr⟩ : ∃ b0 r, c = b0 :: r := by
+      cases c with
+      | nil => simp at hcl
+      | cons b0 r => exact ⟨b0, r, rfl⟩
+    cases fuel with
+    | zero => omega
+    | succ f =>
+      cases i with
+      | zero => rw [List.flatten_cons, hcr]; simp [charToByte]
+      | succ i =>
+        have hrw : charToByte (f + 1) (c ++ t.flatten) (i + 1) pos =
+            charToByte f ((c ++ t.flatten).drop (max (Utf8.decodeRune (c ++ t.flatten)).2.1 1)) i
+              (pos + max (Utf8.decodeRune (c ++ t.flatten)).2.1 1) := by
+          rw [hcr]; rfl
+        have hw : (Utf8.decodeRune c).2.1 = c.length := by rw [hc.2]
+        rw [List.flatten_cons, hrw, hc.decode_append, hw, Nat.max_eq_left hcl.1, List.drop_left,
+          ih (fun x hx => h x (by simp [hx])) f i _ (by omega)]
+        simp only [List.take_succ_cons, List.flatten_cons, List.length_append]; omega
+
+end Gojq.Cli
